@@ -132,7 +132,7 @@ var focusTable = map[string]focusEntry{
 	"Writer.stats":           fe("writer", "", "Writer.Stats", "Writer.WriteMessages"),
 	"Writer.transport":       fe("writer", "", "Writer.WriteMessages", "Writer.Close"),
 	"Writer.group":           fe("writer", "", "Writer.WriteMessages", "Writer.Close"),
-	"Reader.cancel":          fe("reader", "", "Reader.SetOffset", "Reader.SetOffsetAt", "Reader.Close", "Reader.ReadMessage", "Reader.FetchMessage"),
+	"Reader.cancel":          fe("reader", "readergroup", "Reader.SetOffset", "Reader.SetOffsetAt", "Reader.Close", "Reader.ReadMessage", "Reader.FetchMessage"),
 	"Reader.offset":          fe("reader", "", "Reader.Offset", "Reader.SetOffset", "Reader.ReadMessage", "Reader.FetchMessage"),
 	"Reader.lag":             fe("reader", "", "Reader.Lag", "Reader.ReadMessage", "Reader.FetchMessage"),
 	"Reader.closed":          fe("reader", "", "Reader.Close", "Reader.ReadMessage", "Reader.SetOffset"),
@@ -255,7 +255,7 @@ func main() {
 
 	// the files register in alphabetical order: list in priority order
 	order := map[string]int{}
-	for i, n := range []string{"balancers", "codecs", "pagebuf", "batcherr", "connoffset", "readerversion", "batch", "conn", "writer", "reader", "transport"} {
+	for i, n := range []string{"balancers", "codecs", "pagebuf", "batcherr", "connoffset", "readerversion", "readergroup", "batch", "conn", "writer", "reader", "transport"} {
 		order[n] = i
 	}
 	sort.SliceStable(scenarios, func(i, j int) bool { return order[scenarios[i].name] < order[scenarios[j].name] })
